@@ -25,3 +25,5 @@ pub open spec fn piece_at(p: Side, mask: u64) -> u64 {
     else if p.rooks & mask != 0 { 4 } else if p.queens & mask != 0 { 5 } else if p.kings & mask != 0 { 6 } else { 0 }
 }
 pub open spec fn side(v: Pos, c: u32) -> Side { if c == 0 { v.w } else { v.b } }
+/// bit i of a bitboard
+pub open spec fn bit_set(occ: u64, i: u32) -> bool { (occ >> i) & 1 == 1 }
